@@ -228,6 +228,31 @@ impl CanonicalAssets {
         true
     }
 
+    /// Same as `+`, but `None` if some amount doesn't fit 128 bits (instead of wrapping).
+    pub fn checked_add(self, other: Self) -> Option<Self> {
+        let mut aggregated = self.0;
+
+        for (key, value) in other.0 {
+            let entry = aggregated.entry(key).or_default();
+            *entry = entry.checked_add(value)?;
+        }
+
+        aggregated.retain(|_, &mut value| value != 0);
+
+        Some(Self(aggregated))
+    }
+
+    /// Same as `-x`, but `None` if some amount doesn't fit 128 bits (instead of wrapping).
+    pub fn checked_neg(self) -> Option<Self> {
+        let mut negated = self.0;
+
+        for (_, value) in negated.iter_mut() {
+            *value = value.checked_neg()?;
+        }
+
+        Some(Self(negated))
+    }
+
     pub fn is_only_naked(&self) -> bool {
         self.iter().all(|(x, _)| x.is_naked())
     }
